@@ -65,6 +65,10 @@ fn main() {
         }
     }
     out::silence_panics();
+    if matches!(a.prop.as_str(), "C11F" | "C12" | "C13" | "C14" | "C16" | "C17" | "C18") {
+        // arm the trap-and-emulate CPU before any code of the check runs (an optimiser may move `pure` asm blocks)
+        simcpu::init();
+    }
     match a.prop.as_str() {
         "C03" => c03::run(&a),
         "C04" => c04::run(&a),
